@@ -1,3 +1,4 @@
+mod checks;
 mod common;
 mod sim;
 
@@ -8,8 +9,27 @@ fn main() {
     common::install_quiet_panic_hook();
     let args: Vec<String> = std::env::args().collect();
     let code = match args.get(1).map(|s| s.as_str()) {
+        Some("check") => {
+            let prop = args.get(2).cloned().unwrap_or_default();
+            let tier = args
+                .get(3)
+                .cloned()
+                .or_else(|| std::env::var("VERIF_TIER").ok())
+                .unwrap_or_else(|| "quick".into());
+            match prop.as_str() {
+                "C01" | "C02" | "C03" | "C05" | "C06" | "C07" | "C08" | "C09" | "C13" | "C14" | "C04" => {
+                    checks::check_sim(&prop, &tier)
+                }
+                _ => {
+                    eprintln!("no check registered for {prop}");
+                    2
+                }
+            }
+        }
+        Some("replay") => checks::replay_file(&args[2]),
         Some("sim") => cmd_sim(&args[2..]),
         Some("bench") => cmd_bench(&args[2..]),
+        Some("trace") => cmd_trace(&args[2..]),
         _ => {
             eprintln!("usage: hqmc sim <scenario> [props]");
             2
@@ -20,11 +40,22 @@ fn main() {
 
 fn cmd_sim(args: &[String]) -> i32 {
     let name = &args[0];
+    if let Some(fam) = name.strip_prefix("family:") {
+        let quick = args.get(2).map(|s| s == "quick").unwrap_or(true);
+        for sc in sim::scenarios::family(fam, quick) {
+            let mut a = args.to_vec();
+            a[0] = sc.name.clone();
+            cmd_sim(&a);
+        }
+        return 0;
+    }
     let props: Vec<Prop> = args
         .get(1)
         .map(|s| s.split(',').filter_map(Prop::parse).collect())
         .unwrap_or_default();
-    let sc = sim::scenarios::by_name(name).expect("unknown scenario");
+    let sc = sim::scenarios::by_name(name)
+        .or_else(|| sim::scenarios::journal(false).into_iter().find(|s| &s.name == name))
+        .expect("unknown scenario");
     let t = std::time::Instant::now();
     let r = explore(
         &sc,
@@ -86,4 +117,60 @@ fn cmd_bench(args: &[String]) -> i32 {
     for _ in 0..n { let p = sim::key::key_parts(&sys); std::hint::black_box(&p); }
     println!("key_parts: {:.1} us", t.elapsed().as_secs_f64() * 1e6 / n as f64);
     0
+}
+
+/// hqmc trace <scenario> <props> <Ev,Ev,...>   — verbose replay of a history given as text
+fn cmd_trace(args: &[String]) -> i32 {
+    let sc = sim::scenarios::by_name(&args[0])
+        .or_else(|| sim::scenarios::journal(false).into_iter().find(|s| s.name == args[0]))
+        .expect("unknown scenario");
+    let props: Vec<Prop> = args[1].split(',').filter_map(Prop::parse).collect();
+    let history = parse_history(&args[2]);
+    let found = sim::explore::replay_with_monitors(&sc, &props, &history, true);
+    for v in &found {
+        println!("FOUND {} : {}", v.signature(), v.detail);
+    }
+    if found.is_empty() { 0 } else { 1 }
+}
+
+pub fn parse_history(text: &str) -> Vec<sim::system::Ev> {
+    use sim::system::Ev;
+    let mut out = Vec::new();
+    let cleaned: String = text.chars().filter(|c| !c.is_whitespace() && *c != '"' && *c != '[' && *c != ']').collect();
+    // split on "," that are outside parentheses
+    let mut depth = 0;
+    let mut cur = String::new();
+    let mut items = Vec::new();
+    for c in cleaned.chars() {
+        match c {
+            '(' => { depth += 1; cur.push(c); }
+            ')' => { depth -= 1; cur.push(c); }
+            ',' if depth == 0 => { items.push(std::mem::take(&mut cur)); }
+            _ => cur.push(c),
+        }
+    }
+    if !cur.is_empty() { items.push(cur); }
+    for it in items {
+        let (name, arg) = match it.split_once('(') {
+            Some((n, a)) => (n.to_string(), a.trim_end_matches(')').to_string()),
+            None => (it.clone(), String::new()),
+        };
+        let nums: Vec<u32> = arg.split(',').filter(|s| !s.is_empty()).map(|s| s.parse().unwrap()).collect();
+        out.push(match name.as_str() {
+            "ToWorker" => Ev::ToWorker(nums[0] as u8),
+            "ToServer" => Ev::ToServer(nums[0] as u8),
+            "Sched" => Ev::Sched,
+            "EndOk" => Ev::EndOk(nums[0] as u16),
+            "EndErr" => Ev::EndErr(nums[0] as u16),
+            "EndStopped" => Ev::EndStopped(nums[0] as u16),
+            "Flushed" => Ev::Flushed(nums[0] as u16),
+            "TimeLimit" => Ev::TimeLimit(nums[0] as u16),
+            "Kill" => Ev::Kill(nums[0] as u8, nums[1] as u8),
+            "Join" => Ev::Join(nums[0] as u8),
+            "Client" => Ev::Client(nums[0] as u8),
+            "FlushDone" => Ev::FlushDone,
+            other => panic!("unknown event {other}"),
+        });
+    }
+    out
 }
